@@ -345,6 +345,7 @@ IntegerMath(op, T, x, y) ==
                           ELSE IF ZLt(Hi(T), e) THEN Hi(T)
                           ELSE IF BUG = "sat_sub" THEN Hi(T) ELSE Lo(T)))
       [] op = "wide_mul" -> Ok(Flat(Wider(T), ZMul(x, y)))
+      [] op = "wide_square" -> Ok(Flat(Wider(T), ZMul(x, x)))
       [] op \in CmpOps -> Ok(<<ZBool(CmpHolds(op, x, y))>>)
       [] op \in BitOps -> Ok(Flat(T, ZBitOp(x, y, op)))
       [] op = "not" -> Ok(Flat(T, ZSub(Hi(T), x)))
